@@ -26,7 +26,8 @@ from .. import catalogue as C
 from .. import specs as S
 
 RULE = ("seeded random histories of 20-60 constructor/call/configuration operations over 5-9 solver instances drawn from "
-        "16 solver families (always including two parameter sets of one global-using class and an exact duplicate "
+        "16 solver families (always including two parameter sets of one global-using class - three times out of four differing "
+        "in exactly one constructor argument -, single-argument variants of other instances and an exact duplicate "
         "instance); per history 3 events replayed in fresh interpreters.  distinct = (monitor, class, pattern, history); "
         "non-trivial = the compared results contain non-zero values.")
 ASSUME = ["bit-exact comparison (no tolerance) for history independence: there is no legitimate reason for different bits",
@@ -81,6 +82,64 @@ def gen_spec(ctx, rng, ent):
     return dict(kind="cat", entry=ent, cls=path, kwargs=jsonable(kw), geom=geom)
 
 
+# single-parameter variants: "the same class, every constructor argument equal but one" is the most hostile neighbour for
+# anything keyed, cached or kept at module/class level on a subset of the parameters.  Values listed are alternatives the
+# solver accepts (history independence does not need a physically consistent set, only a deterministic function).
+VARY = {
+    "Rmtv": [("gamma", [1.2, 1.3, 1.4]), ("bigamma", [0.8, 1.2]), ("chi0", [0.5, 2.0]), ("aval", [-1.5, -2.5]), ("bval", [6.0, 7.0]),
+             ("xif", [1.8, 2.2]), ("xis", [0.9, 1.1]), ("g0", [0.5, 2.0]), ("rf", "x"), ("beta0", "x")],
+    "SuOlson": [("trad_bc_ev", "x"), ("opac", "x"), ("alpha", "x")],
+    "Guderley": [("gamma", [2.0, 2.5, 3.0]), ("rho0", "x"), ("geometry", [2, 3])],
+    "nED_Solver": [("M0", [1.05, 1.2, 1.4, 2.0]), ("gamma", [1.4, 1.5]), ("Tref", [50.0, 200.0]), ("Cv", "x"), ("sigA", "x"), ("rho0", "x"),
+                   ("problem", ["nED", "LM_nED", "FLD_LP", "FLD_1", "FLD_2"]), ("epsilon", [0.5, 2.0])],
+    "ED_Solver": [("M0", [1.05, 1.1]), ("gamma", [1.4, 1.5]), ("Tref", [50.0, 200.0]), ("Cv", "x"), ("sigA", "x"), ("rho0", "x")],
+}
+
+
+def variant(rng, spec, pick=None):
+    """a copy of `spec` that differs in exactly one constructor argument (None if the specification has nothing to vary)"""
+    v = json.loads(json.dumps(spec))
+    if spec["kind"] == "bbnoh":
+        which = int(rng.integers(4)) if pick is None else pick % 4
+        if which == 0:
+            v["ic"]["velocity"] = spec["ic"]["velocity"] * 1.1
+        elif which == 1:
+            v["ic"]["density"] = spec["ic"]["density"] * 1.1
+        elif which == 2 and spec["consts"]:
+            k = sorted(spec["consts"])[int(rng.integers(len(spec["consts"])))]
+            if not isinstance(spec["consts"][k], (int, float)) or isinstance(spec["consts"][k], bool):
+                return None
+            v["consts"][k] = spec["consts"][k] * 1.05
+        else:
+            v["tune"] = list(spec.get("tune", [])) + [["tol", 1e-9]]
+        v["tune"] = [t for t in v.get("tune", []) if t[0] != "guess"]     # the guess belonged to the other problem
+        return v
+    kw = v["kwargs"]
+    table = VARY.get(spec["entry"])
+    if table is None:
+        cand = [(k, "x") for k, x in sorted(kw.items()) if isinstance(x, float) and x != 0.0]
+        if spec.get("geom") is not None and "geometry" in kw and len(C.CAT[spec["entry"]]["geoms"] or []) > 1:
+            cand.append(("geometry", list(C.CAT[spec["entry"]]["geoms"])))
+        if not cand:
+            return None
+        table = cand
+    k, alt = table[int(rng.integers(len(table))) if pick is None else pick % len(table)]
+    cur = kw.get(k, getattr(C.load(spec["cls"]), k, None))
+    if alt == "x":
+        if not isinstance(cur, (int, float)):
+            return None
+        kw[k] = float(cur) * float(choice(rng, [0.8, 0.9, 1.1, 1.25]))
+    else:
+        others = [a for a in alt if a != cur]
+        if not others:
+            return None
+        kw[k] = others[int(rng.integers(len(others)))]
+        if k == "geometry":
+            v["geom"] = kw[k]
+    v["varied"] = k
+    return v
+
+
 def gen_sig(ctx, rng, spec, s):
     e = C.CAT[spec["entry"]]
     kw = spec.get("kwargs") or dict(ic=spec.get("ic"))
@@ -94,7 +153,10 @@ def gen_sig(ctx, rng, spec, s):
 
 
 def gen_hist(rng, i, tier):
-    return dict(seed=int(rng.integers(2 ** 31)), pattern=["interleave", "interleave", "construct-first-forward-backward", "alternate-AB"][i % 4])
+    # the global-using class of the history and the argument in which its second parameter set differs are enumerated,
+    # not drawn: every (class, argument) pair of VARY is reached within 6 x 10 histories
+    return dict(seed=int(rng.integers(2 ** 31)), pattern=["interleave", "alternate-AB", "construct-first-forward-backward", "interleave"][(i // 6) % 4],
+                first=GLOBAL_USERS[i % len(GLOBAL_USERS)], vary=i // len(GLOBAL_USERS))
 
 
 def fresh(spec, sig, timeout=600):
@@ -130,16 +192,24 @@ def run_hist(ctx, p):
     wts = np.array([w for e, w, _ in POOL], float)
     wts /= wts.sum()
     k = int(rng.integers(5, 10))
-    chosen = [GLOBAL_USERS[int(rng.integers(len(GLOBAL_USERS)))]]
+    chosen = [p.get("first") or GLOBAL_USERS[int(rng.integers(len(GLOBAL_USERS)))]]
     chosen.append(chosen[0])                          # a second parameter set of the same global-using class
     while len(chosen) < k:
         chosen.append(ents[int(rng.choice(len(ents), p=wts))])
     specs_ = []
-    for ent in chosen:
-        try:
-            specs_.append(gen_spec(ctx, rng, ent))
-        except Exception as ex:  # generator trouble is a harness matter
-            raise
+    for j, ent in enumerate(chosen):
+        if j == 1 and (p.get("vary", 0) < 12 or rng.random() < 0.7):
+            v = variant(rng, specs_[0], p.get("vary"))  # ... differing from the first in exactly one argument
+            if v is not None:
+                specs_.append(v)
+                ctx.count("single_parameter_variants:" + ent)
+                continue
+        specs_.append(gen_spec(ctx, rng, ent))
+        if j >= 2 and rng.random() < 0.3:
+            v = variant(rng, specs_[-1])
+            if v is not None:
+                specs_.append(v)
+                ctx.count("single_parameter_variants:" + ent)
     specs_.append(json.loads(json.dumps(specs_[0])))   # exact duplicate of the first instance's specification
     inst, sigs = {}, {}
 
@@ -196,7 +266,7 @@ def run_hist(ctx, p):
         except Exception as ex:
             ctx.count("history_call_raised:%s:%s" % (specs_[i]["entry"], type(ex).__name__))
             continue
-        key = json.dumps([{k: v for k, v in specs_[i].items()}, sig], sort_keys=True)
+        key = json.dumps([{k: v for k, v in specs_[i].items() if k != "varied"}, sig], sort_keys=True)
         events.append(dict(pos=pos, inst=i, entry=specs_[i]["entry"], key=key, digest=S.digest(sol), values=S.values(sol)))
     ctx.count("history_events", len(events))
     if len(events) < 5:
@@ -223,6 +293,14 @@ def run_hist(ctx, p):
     # ---- offline checker 2: fresh interpreter ---------------------------------------------------------------------------
     keys = sorted(groups)
     rng.shuffle(keys)
+    # the two parameter sets of the global-using class are always among the replayed events (one event each, the one
+    # that occurs latest in the history), the rest is a random sample
+    first = []
+    for want in (0, 1):
+        cand = [k for k in keys if any(e["inst"] == want for e in groups[k])]
+        if cand:
+            first.append(max(cand, key=lambda k: max(e["pos"] for e in groups[k])))
+    keys = first + [k for k in keys if k not in first]
     nfresh = 3 if not ctx.thorough() else 6
     for key in keys[:nfresh]:
         spec, sig = json.loads(key)
@@ -354,6 +432,6 @@ def reach(tot, tier):
 
 
 UNITS = [
-    Unit("history", gen_hist, run_hist, quick=64, thorough=960, min_nontrivial=150),
+    Unit("history", gen_hist, run_hist, quick=96, thorough=960, min_nontrivial=150),
     Unit("batch", gen_batch, run_batch, quick=len(BATCH) * 4, thorough=len(BATCH) * 40, min_nontrivial=200),
 ]
